@@ -32,10 +32,14 @@ pub struct RunStat {
 pub fn run(cfg: &Cfg) -> RunStat {
   let gen_ = hist::begin();
   hist::push(json!({"k":"new","kf":cfg.kf,"threads":cfg.threads,"keys":cfg.keys}));
+  // PCT: the expected run length k is drawn per run (many races sit in the first few steps,
+  // others need a long prefix), d-1 priority change points fall uniformly in 1..k
+  let ks = [6u64, 12, 25, 50, 100, 200, 400];
+  let k = ks[((cfg.seed / 7) % ks.len() as u64) as usize];
   let strat = match cfg.strategy.as_str() {
-    "pct" => Strategy::Pct { d: 3, k: 150 },
-    "pct5" => Strategy::Pct { d: 5, k: 250 },
-    _ => Strategy::Random { p: 0.3 },
+    "pct" => Strategy::Pct { d: 2, k },
+    "pct5" => Strategy::Pct { d: 3, k },
+    _ => Strategy::Random { p: 0.25 },
   };
   let ctl = Ctl::with_spares(cfg.threads, 16, cfg.seed ^ 0x7f4a7c15, strat);
   let dynctl: Arc<dyn Controller> = ctl.clone();
